@@ -111,6 +111,9 @@ def run_property(prop_id, tier, root=None, out=sys.stdout):
                   file=out)
         print("VIOLATION property=%s replay=%s" % (prop_id, path), file=out)
         return 1
+    stale = os.path.join(report.EVIDENCE_DIR, "%s.violations.json" % prop_id)
+    if os.path.exists(stale):
+        os.remove(stale)
     print("OK property=%s (%d obligations, %d known finding(s)) %.2fs" % (prop_id, n_inst, len(known_hits), wall),
           file=out)
     return 0
